@@ -15,7 +15,7 @@ lines are text that belongs to the most recent text-taking directive.
     @@before <anchor> [@@k=<n>|last]     text inserted before the line containing <anchor>
     @@end                                text inserted before the last code line of the body (the tail expression, descending
                                          into trailing blocks); use only when that line is a simple expression
-    @@loop <k>                           text inserted before the `{` of the k-th loop header (1-based)
+    @@loop <k> [<iter>]                  (optional <iter>: names the ghost iterator, `for x in <iter>: expr`) text inserted before the `{` of the k-th loop header (1-based)
   @@const <NAME>                         like @@fn, for `const NAME: T = expr;` (R-const)
   @@drop <impl-key>[::<name>] <reason>   item or function not extracted (named drop)
   @@dropre <regex> <reason>              drop the item starting at the first line matching regex
@@ -43,6 +43,7 @@ class FnSpec:
         self.start = []
         self.inserts = []         # (mode, anchor, k, [(text, origin)])
         self.loops = {}           # k -> [(text, origin)]
+        self.loopnames = {}       # k -> ghost iterator name (Verus `for x in NAME: expr`)
         self.origin = None
         self.used = False
 
@@ -156,7 +157,10 @@ def parse(path, text=None, sc=None):
             cur_fn.inserts.append(('end', '', 1, sink, origin))
         elif d == 'loop':
             sink = []
-            cur_fn.loops[int(arg)] = sink
+            a = arg.split()
+            cur_fn.loops[int(a[0])] = sink
+            if len(a) > 1:
+                cur_fn.loopnames[int(a[0])] = a[1]
         elif d == 'drop':
             key, _, reason = arg.partition(' ')
             # key may contain spaces when it is a trait impl; reason is introduced by ' -- '
